@@ -70,6 +70,12 @@ func genEdit(rg *rand.Rand, u *tls.UConn) *helloEdit {
 		id := uint16(0x7700 + rg.Intn(200))
 		data := randBytes(rg, 1+rg.Intn(8))
 		return &helloEdit{fmt.Sprintf("Extensions+=Generic(%#04x)", id), func(u *tls.UConn) error {
+			// an unused type: an earlier edit of the same sequence may have drawn the same one
+			for _, e := range u.Extensions {
+				if ge, ok := e.(*tls.GenericExtension); ok && ge.Id == id {
+					id++
+				}
+			}
 			g := &tls.GenericExtension{Id: id, Data: data}
 			n := len(u.Extensions)
 			pos := n
